@@ -182,17 +182,51 @@ theorem lossy_lemire_agrees (F : FTy) (hF : C01.IsLemireFloat F) (q : Int) (hq :
         · simp only [Bool.not_true, Bool.false_and, Bool.false_eq_true, if_false]
           exact h
 
-/-- **`lossy_lemire_neighbour`** (statement; **not proved**): lossy `compute_float` always answers with a valid float,
-which is `roundNE (w·10^q)` or the pattern just below it. Open only on the fall-back inputs (elsewhere
-`lossy_lemire_agrees`). Route: there `cfRound` computes `roundNE` of the *computed* product `z = hi·2^64 + lo`
-(`cfRound_of_quot` / `cfRound_sub` with `N := z·Dz`: no tie, `lo` is all ones), the exact product is within
-`[z, z + 2^64 + 1)`, a relative error below `2^−61`, and `Proof.RoundNEStep.roundNE_step` turns that into at most one
-pattern. -/
+/-- **`lossy_lemire_neighbour`** (**proved**: `lossy_lemire_neighbour_proved`): lossy `compute_float` always answers with
+a valid float, which is `roundNE (w·10^q)` or the pattern just below it. Off the fall-back inputs by
+`lossy_lemire_agrees`; on them `cfRound` computes `roundNE` of the *computed* product `z = hi·2^64 + lo` (no tie: `lo` is
+all ones), the exact product lies in `[z, z + 2^64 + 1)`, a relative error below `2^−61`
+(`Proof.LemireStable.LossyOK`), and `Proof.RoundNEStep.roundNE_step` turns that into at most one pattern. -/
 def lossy_lemire_neighbour : Prop :=
   ∀ F, C01.IsLemireFloat F → ∀ (q : Int) (w : Nat), C01.IsI64 q → w < 2 ^ 64 →
     ∃ fp, Lemire.computeFloat F q w true = .ok fp ∧ 0 ≤ fp.exp ∧
       (extendedToFloat F fp = roundNE F.fmt (powFrac 10 q w).1 (powFrac 10 q w).2 ∨
         extendedToFloat F fp + 1 = roundNE F.fmt (powFrac 10 q w).1 (powFrac 10 q w).2)
+
+/-- **the lossy Eisel–Lemire answer as a value** (every exponent, every mantissa): a valid float that is `roundNE` of
+some `n'/d'` with `n'/d' ≤ w·10^q ≤ (n'/d')·(1 + 2^−61)` -/
+theorem lossy_lemire_value (F : FTy) (hF : C01.IsLemireFloat F) (q : Int) (hq : C01.IsI64 q) (w : Nat)
+    (hw : w < 2 ^ 64) :
+    ∃ fp n' d', Lemire.computeFloat F q w true = .ok fp ∧ 0 ≤ fp.exp ∧ 0 < d' ∧
+      extendedToFloat F fp = roundNE F.fmt n' d' ∧ n' * (powFrac 10 q w).2 ≤ (powFrac 10 q w).1 * d' ∧
+      (powFrac 10 q w).1 * d' * 2 ^ 61 ≤ n' * (powFrac 10 q w).2 * (2 ^ 61 + 1) := by
+  obtain ⟨fp0, h0, hvalid, _⟩ := C01.lemire_sound_proved F hF q w hq hw
+  have hden : 0 < (powFrac 10 q w).2 := by
+    unfold powFrac; split
+    · exact Nat.one_pos
+    · exact Nat.pow_pos (by decide)
+  by_cases hv : 0 ≤ fp0.exp
+  · obtain ⟨hl, hr⟩ := lossy_lemire_agrees F hF q hq w hw h0 hv
+    refine ⟨fp0, (powFrac 10 q w).1, (powFrac 10 q w).2, hl, hv, hden, hr, Nat.le_refl _, ?_⟩
+    exact Nat.mul_le_mul_left _ (Nat.le_succ _)
+  · obtain ⟨_, _, _, _, hl⟩ := C01.lemire_invalid_facts F hF q w fp0 hw h0 (by omega)
+    exact hl
+
+theorem lossy_lemire_neighbour_proved : lossy_lemire_neighbour := by
+  intro F hF q w hq hw
+  obtain ⟨fp, n', d', h1, h2, hd', h3, hlo, hhi⟩ := lossy_lemire_value F hF q hq w hw
+  have hf : WF F.fmt := by rcases hF with h | h <;> subst h <;> [exact wf_f64; exact wf_f32]
+  have hp61 : 2 ^ F.fmt.p ≤ 2 ^ 61 := by
+    rcases hF with h | h <;> subst h <;> decide
+  have hden : 0 < (powFrac 10 q w).2 := by
+    unfold powFrac; split
+    · exact Nat.one_pos
+    · exact Nat.pow_pos (by decide)
+  refine ⟨fp, h1, h2, ?_⟩
+  rw [h3]
+  have hmono := roundNE_mono' hf hd' hden hlo
+  have hstep := roundNE_step hf hd' hden hp61 hhi
+  omega
 
 /-- non-vacuity (decimal, `compact`): `2^53 + 1` is a tie: non-lossy declines, lossy rounds the estimate -/
 example : Bellerophon.bellerophon FTy.f64 (Gen.Bellerophon.CompactRadix.powers 10)
